@@ -10,17 +10,90 @@ PROOF_NOTE = ("Trusted: Lean 4.33 kernel; axioms propext/Classical.choice/Quot.s
 
 CLAIMS = {
  "C01": dict(
-   text="Lean theorems for every formula behaviour, every reachable cache state, every element: the mechanism model of eval_node/_eval_formula/CallStack/cache returns exactly the spec value Den (uncached pure evaluation) and keeps all held values correct (eval_value_is_denotation_partial, under 'the recursion limit was never hit' - the full statement is refuted by a kernel-checked witness, known finding C01-caught-deep); conversely within the limit the spec result is returned (eval_returns_denotation); order independence; a held element is never re-executed. Tied to /repo by differential runs (eval results, held values, execution log after every op) and an implementation-only oracle (fresh replica with edits only; all-uncached pure recomputation; spellings positional/keyword/subscript/.value).",
-   note=PROOF_NOTE + "Argument binding (inspect.Signature.bind) and Python arithmetic are exercised by the oracle, not modelled; names are resolved by the harness (flat world: one space, a child space for attribute-path references).",
-   tech="Lean 4 refinement proof (memoised mechanism refines spec, induction on depth and on Prog) + differential correspondence"),
+   text=("Lean theorems for every environment (every formula behaviour, including formulas that handle their callees' failures), "
+         "every state that holds only correct values (Good), every element: a top-level call that does not hit the recursion limit "
+         "IN THIS CALL (LimitNotCaughtInThisCall - nothing is assumed about earlier calls: the limit flag is proved to be a ghost that "
+         "no function of the mechanism reads, limit_flag_is_ghost, limit_flag_is_ghost_history; limit_not_caught_of_flag) returns exactly "
+         "the specification's value Den (uncached pure evaluation), or a FormulaError carrying the specification's error, and leaves a "
+         "state holding only correct values (eval_value_is_denotation_partial); conversely a pure evaluation that stays within the "
+         "configured limit is what the call returns (eval_returns_denotation); two states holding only correct values give the same "
+         "value - order independence (order_independent). For formulas that let DeepReferenceError propagate (DeepPropagatesEnv) or "
+         "handle no failure (NoCatchEnv) NO hypothesis about the limit is needed (eval_value_is_denotation_deep_propagates_partial, "
+         "eval_value_is_denotation_nocatch_partial), and after any admissible history of the thirteen-operation edit language of C02 "
+         "every returned value is the specification's under the CURRENT definitions and inputs (eval_after_any_history_partial; regime "
+         "WF = Ranked + NoCatchEnv + Scoped). What is excluded is exactly the known finding C01-caught-deep: a formula that CATCHES the "
+         "depth error stores a value pure evaluation does not give (full_statement_fails, kernel-checked witness). Computed once: a held "
+         "element of a cached cells is served without executing anything, from the top level and from inside a formula "
+         "(held_never_reexecuted_top, held_never_reexecuted - unfoldings of the hit path); no element that held a value when a call "
+         "started is executed during it, at any depth (held_elements_never_executed; across histories "
+         "executed_again_only_after_cleared); every execution of an element of a cached cells is either rolled back or is THE execution "
+         "that stores its value (every_execution_fails_or_stores - the accounting identity; 'at most once' is false with handlers, which "
+         "may call a failing cells again); without handlers a returning call executes nothing twice and executes exactly the newly held "
+         "elements (computed_once_nocatch) - these under Ranked (terminating programs; necessary: C08.ranked_or_limit_needed). NOT "
+         "theorems, decided by the oracle only: that every name is resolved in the cells' own space (sibling cells, references, child "
+         "spaces, model-level references, built-ins - the model has a flat reference table and the harness resolves names; the pure "
+         "resolution layer Exec/Resolve.lean is not tied to the code), and that calls binding to the same arguments (positional, "
+         "keyword, defaults, subscription, .value) denote the same element (the binding rule itself is C07's bind_iff). Tied to /repo by "
+         "differential runs (eval results incl. error kind and traceback, held values with input marks, trace graph, execution log "
+         "after every op) and an implementation-only oracle (fresh replica with edits only; all-uncached pure recomputation; every "
+         "spelling of every element: same value, no formula re-run, no other element created)."),
+   note=PROOF_NOTE + "Argument binding (inspect.Signature.bind) and Python arithmetic are exercised by the oracle, not modelled; names are resolved by the harness (two spaces S and S.Ch, cells in either, by-name reads and attribute paths Ch.r, _space.r, _space.parent.r). Formulas are interaction trees (Prog): what a formula does besides calling cells, reading references, raising and handling failures is outside; except-reraise / finally blocks are modelled in the class blocksSimple only (no handler inside such a block; the driver answers `unsupported` outside it); assignments or clears made from inside a formula are not in Prog. The suffix _partial marks a named hypothesis (here: LimitNotCaughtInThisCall, DeepPropagatesEnv, NoCatchEnv, WF), the first with its kernel-checked negation.",
+   tech="Lean 4 refinement proof (memoised mechanism refines spec, induction on depth and on Prog; ghost-irrelevance of the limit flag; taint theorem for propagating depth errors; execution-log accounting) + differential correspondence"),
  "C05": dict(
-   text="Lean theorems over all formula behaviours and failure points (raise at any depth, None where not allowed; for exceeding the depth limit see the note): every top-level call leaves call stack, index stack, reference stack and roll-back list empty (failure_quiescent, proved by a frame lemma for _eval_formula); the FormulaError carries the spec's error and all held values stay the spec's (failure_consistent_partial); later evaluations are unaffected (retry_unaffected_partial); failing elements hold no value; held values are kept; chains within the limit never hit it (below_limit_no_deep). Tied to /repo by differential runs (results, values, trace graph, stack emptiness) and an oracle using the interpreter's own traceback of the original exception.",
-   note=PROOF_NOTE + "'does not crash the interpreter' is a CPython C-stack fact: exercised only. Theorems marked _partial assume that the recursion limit was NEVER hit - neither in this call nor in any earlier one of the history (the model's ghost flag `hit` is sticky): for the depth-limit failure itself only failure_quiescent and the held-values-are-kept half are proved in C05; consistency after a limit failure for programs that do not catch failures follows from C02's eval_keeps_certificates (no depth hypothesis). Lifting the sticky flag (the mechanism never reads it) is open work.",
-   tech="Lean 4 invariant proofs (stack discipline, soundness under failure) + differential correspondence"),
+   text=("Lean theorems over all formula behaviours and failure points: every top-level call - returned or failed at any depth with "
+         "any kind of error, the depth limit included - leaves call stack, index stack, reference stack and roll-back list empty "
+         "(failure_quiescent, unconditional, proved by a frame lemma for _eval_formula). Failure kinds raise-at-any-depth and "
+         "None-where-not-allowed, every formula behaviour incl. handlers: the FormulaError carries the specification's error and every "
+         "held value stays the specification's (failure_consistent_partial), later evaluations are unaffected (retry_unaffected_partial), "
+         "held values and inputs are kept (held_values_kept_partial) - each under LimitNotCaughtInThisCall for the call at hand ONLY "
+         "(the limit flag is a ghost, C01.limit_flag_is_ghost: an earlier depth error takes nothing out of scope). The depth-limit "
+         "failure itself and every state after it are covered with NO hypothesis about the limit for formulas that handle no failure "
+         "(NoCatchEnv: failure_consistent_nocatch - correct state, inputs untouched, returned values are the specification's -, "
+         "retry_unaffected_nocatch, held_values_kept_nocatch, limit_history_consistent_nocatch) or whose handlers let the depth error "
+         "through (DeepPropagatesEnv: failure_consistent_deep_propagates - additionally the error carried is the depth error or the "
+         "specification's -, retry_unaffected_deep_propagates, limit_history_consistent_deep_propagates, "
+         "within_last_limit_evaluates_deep_propagates; generic form limit_history_consistent_of). Sequences of successive failures and "
+         "repairs: after ANY admissible history of the thirteen-operation edit language of C02 (calls that return, fail or are stopped "
+         "by the limit, reference / formula / flag / value edits, cells created and deleted, limit changes) every held value is the "
+         "specification's under the current definitions, the executor is idle and every later value is the specification's - the values "
+         "of a model that never failed (successive_failures_consistent; regime C02.WF = Ranked + NoCatchEnv + Scoped, Admissible). NOT "
+         "covered by any theorem: a formula that CATCHES the depth error (known finding C01-caught-deep). 'No element on the failing "
+         "chain acquires a value' is proved at SPECIFICATION level (failing_elements_hold_no_value: in a state holding only correct "
+         "values an element whose pure evaluation ends in an error holds nothing), not as a statement about roll-back. Chains within "
+         "the limit never hit it, whatever is cached and whatever earlier calls did (below_limit_no_deep). Limit and administration: "
+         "the specification does not mention the limit and held values are valid under any limit (spec_ignores_limit, "
+         "held_values_valid_under_any_limit, denoteN_limit_free, denoteBody_limit_free), the limit in force is the one configured last "
+         "(limit_is_last_configured), start / stop / read / clear of stack-trace sessions, get_recursion, get_error, get_traceback "
+         "change nothing (admin_changes_nothing - true by definition of the model's step; its content is the correspondence), "
+         "histories of evaluations, limit changes and administrative calls stay consistent (limit_history_consistent_partial and "
+         "within_last_limit_evaluates_partial under LimitFree = no evaluation of the history hits the limit in force at that moment; "
+         "evalTop_hit_sticky); allow_none is looked up cells > space > model (allow_none_own_setting_decides, "
+         "allow_none_space_decides_when_cells_unset, allow_none_model_decides_when_unset_below, allow_none_only_if_some_level_allows: "
+         "facts about the five-line resolveAllowNone). 'Does not crash the interpreter' is a CPython C-stack fact: exercised, NOT a "
+         "theorem. Tied to /repo by differential runs (results, values, trace graph, stack emptiness, get_recursion read back after "
+         "every op incl. administrative calls and limit changes) and an oracle using the interpreter's own traceback of the original "
+         "exception, 'formulas never nest deeper than limit + 1 and a DeepReferenceError has exactly limit + 1 frames', and 'the same "
+         "history without the administrative calls gives the same results and held values'; scenario families limit x chain "
+         "below/at/above x admin sequence and all assignments of allow_none to cells / space / model."),
+   note=PROOF_NOTE + "Theorems marked _partial assume that the recursion limit is not hit in THE CALL they speak about (LimitNotCaughtInThisCall); nothing is assumed about earlier calls. For the depth-limit failure of a formula that catches it nothing beyond failure_quiescent is proved. A recursion limit of 0 was silently reset by a stack-trace session in the original code (repaired, 51dce2e; the harness configures limits >= 1). Formulas are interaction trees; except-reraise / finally blocks only in the class blocksSimple.",
+   tech="Lean 4 invariant proofs (stack discipline, soundness under failure, taint theorem for propagating depth errors, histories of limit changes) + differential correspondence"),
  "C19": dict(
-   text="Lean 4 theorems over the registry state machine (all operation sequences, all names): invariant name->model with that name, unique names and identities, no model dropped except by its own close, close removes exactly one; tied to /repo by differential runs of the model driver against mx.new_model/read_model/rename/close after every op. Isolation between models is checked by an implementation-only oracle (not a theorem).",
-   note=PROOF_NOTE + "Model of System.new_model/rename_model/_rename_samename/close_model/ModelReader.read_model; the isolation clause is sampled, not proved.",
-   tech="Lean 4 invariant proof by induction over operations + differential correspondence"),
+   text=("Lean theorems on a model of System.new_model / rename_model / _rename_samename / close_model and the way "
+         "ModelReader.read_model uses them, for all operation sequences and all names: the registry invariant after every history - "
+         "each name maps to the model with that name, names unique, each model registered once (registry_inv_step, registry_inv_run, "
+         "registry_maps_names); the registered models are EXACTLY the models the caller was handed (accepted new_model, successful "
+         "read_model) and has not closed since, for every history (registered_iff_open_handle; step form registered_step_iff) - so "
+         "creating, reading (also a failing read) or renaming under a name in use drops nothing and close removes exactly that model "
+         "(never_dropped, close_removes_exactly, new_model_keeps_old); the displaced holder of a name is registered under name_BAK<k> "
+         "(displaced_model_gets_backup_name). Stale handles: the model follows the repaired code (0035a5d: close of an unregistered "
+         "model is a no-op, rename raises; before it a stale handle acted on the model bearing its name now). The SECOND sentence of "
+         "C19 - operations on one model never change the definitions of another model, nor the values of a model holding no reference "
+         "into it - has NO theorem (the registry model has neither definitions nor values): it is decided by the implementation-only "
+         "oracle in c19.py (descriptions and values of the other models before / after every edit); edits through handles of closed "
+         "models are skipped there. Tied to /repo by differential runs of the model driver against mx.new_model / read_model / rename "
+         "/ close after every op, stale handles included (performed on the library, not answered by the harness)."),
+   note=PROOF_NOTE + "Names are ASCII identifiers in the model (str.isidentifier admits more; the harness alphabet is ASCII). registry_maps_names is a projection of the invariant. The session's current model and the two namers are in the model but not compared (only the registry dict is). The harness maps exception classes to answers (KeyError -> no such model, ValueError -> invalid name).",
+   tech="Lean 4 invariant proof by induction over operations + exact characterisation of the registered set + differential correspondence + implementation-only isolation oracle"),
 }
 EXTRA = json.load(open(os.path.join(ROOT, "tools", "claims_extra.json"))) if os.path.exists(os.path.join(ROOT, "tools", "claims_extra.json")) else {}
 CLAIMS.update(EXTRA)
